@@ -80,6 +80,29 @@ fn run<T: Flt>(src: &mut Src, obs: &mut Obs) -> Result<(), Fail> {
     } else {
         values::<T>(src, n * lanes, vclass, sc)
     };
+    // axis and data scaled TOGETHER by a large power of two (exact): every knot, step, value and result stays a normal
+    // number, but a formula that forms value x step (or value / step^2) leaves the float range
+    let (mut x, mut data) = (x, data);
+    if class != AxisClass::Index && src.chance(1, 10) {
+        let (kmin, kmax, top, low_x, low_y) = if T::MANT == 53 { (300, 900, 1000, -1000, -900) } else { (30, 100, 120, -120, -100) };
+        let k = src.int_in(kmin, kmax) as i32 * if src.bool() { 1 } else { -1 };
+        let f = 2f64.powi(k / 2) * 2f64.powi(k - k / 2);
+        let sx: Vec<f64> = x.iter().map(|v| v * 2f64.powi(k / 2) * 2f64.powi(k - k / 2)).collect();
+        let sd: Vec<f64> = data.iter().map(|v| v * 2f64.powi(k / 2) * 2f64.powi(k - k / 2)).collect();
+        let in_win = |v: f64, lo: i32| v == 0.0 || (v.is_finite() && v.abs() < 2f64.powi(top) && v.abs() >= 2f64.powi(lo) && T::of(v).f() == v);
+        let ok = f.is_finite()
+            && f > 0.0
+            && sx.iter().all(|&v| in_win(v, low_x))
+            && sd.iter().all(|&v| in_win(v, low_y))
+            && sx.windows(2).all(|w| w[1] - w[0] >= 2f64.powi(low_x))
+            && sx.iter().zip(x.iter()).all(|(s, o)| (*o == 0.0) == (*s == 0.0))
+            && sd.iter().zip(data.iter()).all(|(s, o)| (*o == 0.0) == (*s == 0.0));
+        if ok {
+            obs.class(if k > 0 { "scale:co-scaled-huge" } else { "scale:co-scaled-tiny" });
+            x = sx;
+            data = sd;
+        }
+    }
     let mut shape = vec![n];
     shape.extend_from_slice(&trailing);
     let dd = if src.chance(1, 4) { DDim::Dyn } else { DDim::of_rank(shape.len()) };
